@@ -61,6 +61,20 @@ CHECKS: dict[str, dict[str, str]] = {
         note='grace bound = queueing.exit_timeout + the 5 s for hung tasks + daemon cancellation stages + the scripted handler durations; '
              'sync handlers/daemons in threads are not simulated; F14 and F15 are the known lingering cases',
         ref='DESIGN.md 4/C20'),
+    'C08': dict(
+        technique='TLA+ reference of patch delivery (Patching.tla over JV.tla: the plan of up to four requests, server-side merge / JSON-patch '
+                  'semantics, conflict carry-forward); every request of the real patching.patch_obj against the stateful fake API is '
+                  'replayed by TLC against the reference',
+        text='For patch contents (body / status / both) x transformation lists (finalizer add / remove, state-checking list append, status '
+             'edit) x resources with / without the status subresource x initial objects x one foreign write (spec, another finalizer, '
+             'status, disappearance, delete-and-recreate) at every position relative to the requests and before the call, over up to '
+             'four cycles: the endpoint and content type of every request, the merge payloads, the version test of every JSON-patch '
+             '(= the freshest version known), the decoded ops (applied to that very version they must give the transformations of it), '
+             'the server object after every request, 404 / 422 handling, what is carried forward, and the final object (finalizer there / '
+             'gone, the appended item exactly once) are decided by TLC per run. F3 is a TLA+ predicate.',
+        note='one foreign write per run; transformation functions follow the documented contract (check the state before changing it); '
+             'the carry-forward inside the operator (memory.remaining_patch) is exercised by the closed-loop traces of C02/C06',
+        ref='DESIGN.md 4/C08'),
     'C17': dict(
         technique='TLA+ reference state machine of indexing (Indexing.tla); the recorded steps of the real operator are replayed by TLC, which '
                   'predicts the handlers that run and the full contents of every index after each step; gate scenarios judged by the same module',
